@@ -1,4 +1,373 @@
-import NriModel.Basic
-/-! Property theorems for C09 — placeholder until the model is written. -/
+/-
+Property C09 — synchronisation delivers the runtime's complete state however it must be
+split. Only the property theorems and the examples showing their hypotheses satisfiable
+live here; the model is `NriModel/SyncChunk.lean`, helper lemmas `NriModel/Lemmas/SyncChunk*.lean`.
+
+Sender theorems are about the REPAIRED loop (`Env.clamp = true`, any policy with
+`Shrinks m`; `C09_policy` shows the patched `recalcObjsPerSyncMsg` is such a policy). The
+code as it stands at the pinned commit is transcribed as `clamp = false` with
+`policyUnfixed`; `unfixed_panics` and `unfixed_livelocks` evaluate it on the two witnesses.
+-/
+import NriModel.Lemmas.SyncChunkPolicy
+import NriModel.Lemmas.SyncChunkTrace
+
 namespace Nri.Props.C09
+
+open Nri Nri.SyncChunk
+
+variable {α β υ ε σ : Type}
+
+/-! ### Receiver -/
+
+/-- **C09_receiver.** Whatever the stub had accumulated is irrelevant for a fresh session
+    (`RState.init`): for chunks flagged as the protocol says (all but the last `more`), the
+    plugin's handler is called exactly once, with the concatenation of all pods and of all
+    containers in order; every `more` chunk is answered by an empty echo, and the answer to the
+    last chunk is the handler's own updates (or its error); the accumulator is clear again. -/
+theorem C09_receiver (f : List α → List β → Except ε (List υ)) (chunks : List (Chunk α β))
+    (h : WellFlagged chunks) :
+    stubRun (some f) RState.init chunks =
+      (⟨none, [(allPods chunks, allCtrs chunks)]⟩,
+       List.replicate (chunks.length - 1) (.ok ⟨[], true⟩) ++
+         [match f (allPods chunks) (allCtrs chunks) with
+          | .ok u => .ok ⟨u, false⟩
+          | .error e => .error e]) := by
+  have := stubRun_wellFlagged f chunks RState.init h
+  simp only [RState.init, accPods, accCtrs, List.nil_append, handlerReply] at this ⊢
+  rw [this]
+  cases f (allPods chunks) (allCtrs chunks) <;> rfl
+
+example : WellFlagged [(⟨[1, 2], [10], true⟩ : Chunk Nat Nat), ⟨[], [11, 12], true⟩, ⟨[3], [], false⟩] := by
+  simp [WellFlagged]
+
+/-- Two sessions in a row (a plugin that re-registers): the second starts from a clear
+    accumulator, so each session is delivered on its own. -/
+theorem C09_receiver_sessions (f : List α → List β → Except ε (List υ))
+    (a b : List (Chunk α β)) (ha : WellFlagged a) (hb : WellFlagged b) :
+    (stubRun (some f) (stubRun (some f) RState.init a).1 b).1 =
+      ⟨none, [(allPods a, allCtrs a), (allPods b, allCtrs b)]⟩ := by
+  rw [stubRun_wellFlagged f a RState.init ha]
+  rw [stubRun_wellFlagged f b _ hb]
+  simp [RState.init, accPods, accCtrs]
+
+/-- A plugin that implements no `Synchronize`: every chunk is echoed, nothing is kept. -/
+theorem C09_receiver_no_handler (chunks : List (Chunk α β)) (st : RState α β) :
+    stubRun (none : Handler α β υ ε) st chunks = (st, chunks.map fun c => .ok ⟨[], c.more⟩) :=
+  stubRun_noHandler chunks st
+
+/-! ### Plans -/
+
+/-- **C09_plan.** Any plan the nondeterministic specification admits delivers exactly the
+    supplied pods and containers, each once and in order, is flagged so that the receiver
+    theorem applies, every message fits, and no `more` message is empty. -/
+theorem C09_plan (fits : Chunk α β → Prop) (pods : List α) (ctrs : List β)
+    (pl : List (Chunk α β)) (h : ValidPlan fits pods ctrs pl) :
+    allPods pl = pods ∧ allCtrs pl = ctrs ∧ WellFlagged pl ∧ (∀ c ∈ pl, fits c) ∧
+      (∀ c ∈ pl, c.more = true → 0 < c.count) :=
+  validPlan_spec h
+
+example : ValidPlan (fun _ => true = true) [1, 2, 3] [10, 11, 12]
+    [(⟨[1, 2], [10], true⟩ : Chunk Nat Nat), ⟨[], [11, 12], true⟩, ⟨[3], [], false⟩] :=
+  accepts_sound (fun _ => true)
+    [(⟨[1, 2], [10], true⟩ : Chunk Nat Nat), ⟨[], [11, 12], true⟩, ⟨[3], [], false⟩]
+    [1, 2, 3] [10, 11, 12] (by decide)
+
+/-- The executable acceptor the driver runs decides exactly `ValidPlan`. -/
+theorem C09_accepts_iff [DecidableEq α] [DecidableEq β] (fits : Chunk α β → Bool)
+    (pods : List α) (ctrs : List β) (pl : List (Chunk α β)) :
+    accepts fits pods ctrs pl = true ↔ ValidPlan (fun c => fits c = true) pods ctrs pl :=
+  ⟨accepts_sound fits pl pods ctrs, accepts_complete fits⟩
+
+/-- Plan and receiver together: a valid plan fed to the stub calls the handler exactly once
+    with exactly the supplied state. -/
+theorem C09_plan_delivers (fits : Chunk α β → Prop) (f : List α → List β → Except ε (List υ))
+    (pods : List α) (ctrs : List β) (pl : List (Chunk α β)) (h : ValidPlan fits pods ctrs pl) :
+    (stubRun (some f) RState.init pl).1 = ⟨none, [(pods, ctrs)]⟩ := by
+  obtain ⟨h1, h2, h3, _, _⟩ := validPlan_spec h
+  rw [C09_receiver f pl h3, h1, h2]
+
+/-! ### Sender (repaired loop) -/
+
+/-- **C09_sender.** For every size oracle, limit, plugin end and every shrink policy that
+    satisfies `Shrinks`, when the repaired `synchronize` returns successfully the messages
+    it got through form a valid plan for the supplied state. -/
+theorem C09_sender (E : Env α β υ ε σ) (m : Nat) (hc : E.clamp = true) (hπ : Shrinks m E.policy)
+    (fuel : Nat) (w : σ) (pods : List α) (ctrs : List β) (u : List υ)
+    (h : (synchronize E fuel w pods ctrs).out = .done u) :
+    ValidPlan (fun c => E.size c ≤ E.limit) pods ctrs (plan (synchronize E fuel w pods ctrs).evs) :=
+  (run_main E m hc hπ fuel w _ (good_init pods ctrs)).2.2.1 u h
+
+/-- **C09_no_fault.** The repaired loop never evaluates an out-of-range slice expression
+    (no panic, no exposure of slice capacity), and never sends a `more` message that carries
+    nothing — in particular it cannot spin on empty messages. -/
+theorem C09_no_fault (E : Env α β υ ε σ) (m : Nat) (hc : E.clamp = true) (hπ : Shrinks m E.policy)
+    (fuel : Nat) (w : σ) (pods : List α) (ctrs : List β) :
+    (synchronize E fuel w pods ctrs).out ≠ .fault ∧
+      ∀ c ∈ plan (synchronize E fuel w pods ctrs).evs, c.more = true → 0 < c.count :=
+  let h := run_main E m hc hπ fuel w _ (good_init pods ctrs)
+  ⟨h.1, h.2.2.2⟩
+
+/-- **C09_terminates.** `2·(|pods|+|containers|)+1` iterations always suffice: every
+    iteration either gets at least one object through or strictly lowers the number of
+    objects per message. -/
+theorem C09_terminates (E : Env α β υ ε σ) (m : Nat) (hc : E.clamp = true)
+    (hπ : Shrinks m E.policy) (fuel : Nat) (w : σ) (pods : List α) (ctrs : List β)
+    (hf : fuelBound pods ctrs ≤ fuel) :
+    (synchronize E fuel w pods ctrs).out ≠ .outOfFuel := by
+  apply (run_main E m hc hπ fuel w _ (good_init pods ctrs)).2.1
+  have := mu_init pods ctrs
+  omega
+
+/-- Fuel is only a proof device: with any two amounts of fuel at or above the bound the
+    repaired loop performs the very same run (so the statements below are about THE run). -/
+theorem C09_fuel_irrelevant (E : Env α β υ ε σ) (m : Nat) (hc : E.clamp = true)
+    (hπ : Shrinks m E.policy) (w : σ) (pods : List α) (ctrs : List β) (k : Nat) :
+    synchronize E (fuelBound pods ctrs + k) w pods ctrs =
+      synchronize E (fuelBound pods ctrs) w pods ctrs :=
+  run_mono E _ k w _ (C09_terminates E m hc hπ _ w pods ctrs (Nat.le_refl _))
+
+/-- **C09_complete.** The repaired loop gives up with "failed to synchronize plugin with
+    split messages" only after the transport refused a message of at most `m` objects
+    (consecutive pods and consecutive containers of the state). Contrapositive: a state in
+    which every such small message fits is always synchronised. -/
+theorem C09_complete (E : Env α β υ ε σ) (m : Nat) (hc : E.clamp = true) (hπ : Shrinks m E.policy)
+    (hlim : 0 < E.limit) (fuel : Nat) (w : σ) (pods : List α) (ctrs : List β)
+    (h : (synchronize E fuel w pods ctrs).out = .failed .tooLarge) :
+    ∃ c : Chunk α β, c.pods <:+: pods ∧ c.ctrs <:+: ctrs ∧ c.count ≤ m ∧ E.limit < E.size c :=
+  let ⟨c, h1, h2, h3, h4, _⟩ := run_tooLarge E m hc hπ hlim pods ctrs fuel w _ (good_init pods ctrs)
+    (List.suffix_refl _) (List.suffix_refl _) h
+  ⟨c, h1, h2, h3, h4⟩
+
+/-- **C09_delivery** (sender and receiver composed — the property itself). The repaired
+    sender talking to the stub, with enough fuel: either it gives up before the plugin's
+    handler was ever called (the state cannot be transmitted under the policy), or the
+    handler was called exactly once, with exactly the supplied pods and containers in the
+    runtime's order, and what `synchronize` returns is the handler's own answer — its updates,
+    or its error. The sender never mistakes the stub for a plugin that cannot take split
+    requests, never faults and never runs on. -/
+theorem C09_delivery (E : Env α β υ ε (RState α β)) (m : Nat) (hc : E.clamp = true)
+    (hπ : Shrinks m E.policy) (f : List α → List β → Except ε (List υ))
+    (hpeer : E.peer = stubRPC (some f)) (fuel : Nat) (pods : List α) (ctrs : List β)
+    (hf : fuelBound pods ctrs ≤ fuel) :
+    let r := synchronize E fuel RState.init pods ctrs
+    (r.out = .failed .tooLarge ∧ r.world.calls = []) ∨
+    (r.world.calls = [(pods, ctrs)] ∧ r.world.acc = none ∧
+      r.out = match f pods ctrs with
+        | .ok u => .done u
+        | .error e => .failed (.peer e)) := by
+  intro r
+  have h := run_stub E m hc hπ f hpeer pods ctrs fuel RState.init _ (good_init pods ctrs) rfl
+    (by simp [accPods, RState.init, SState.init]) (by simp [accCtrs, RState.init, SState.init])
+  have ht := C09_terminates E m hc hπ fuel RState.init pods ctrs hf
+  rcases h with ⟨h1 | h1, h2⟩ | ⟨h1, h2, h3⟩
+  · exact .inl ⟨h1, h2⟩
+  · exact absurd h1 ht
+  · exact .inr ⟨h2, h3, h1⟩
+
+/-- The same against a plugin without a `Synchronize` handler: no updates, nothing called. -/
+theorem C09_delivery_no_handler (E : Env α β υ ε (RState α β)) (m : Nat) (hc : E.clamp = true)
+    (hπ : Shrinks m E.policy) (hpeer : E.peer = stubRPC (none : Handler α β υ ε)) (fuel : Nat)
+    (pods : List α) (ctrs : List β) (hf : fuelBound pods ctrs ≤ fuel) :
+    let r := synchronize E fuel RState.init pods ctrs
+    r.world = RState.init ∧ (r.out = .done [] ∨ r.out = .failed .tooLarge) := by
+  intro r
+  have h := run_noHandler E m hc hπ hpeer fuel RState.init _ (good_init pods ctrs)
+  have ht := C09_terminates E m hc hπ fuel RState.init pods ctrs hf
+  rcases h with ⟨h1, h2 | h2 | h2⟩
+  · exact ⟨h1, .inl h2⟩
+  · exact ⟨h1, .inr h2⟩
+  · exact absurd h2 ht
+
+/-- **C09_policy.** The patched `recalcObjsPerSyncMsg` (exact arithmetic) is a policy the
+    theorems above apply to, for every minimum of at least two objects per message. -/
+theorem C09_policy (m : Nat) (hm : 2 ≤ m) : Shrinks m (policyFixed m) :=
+  policyFixed_shrinks m hm
+
+example : ∃ π, Shrinks 8 π := ⟨policyFixed 8, C09_policy 8 (by decide)⟩
+
+/-- **C09_patched.** The property for the patched Go code as transcribed (`clamp`, `policyFixed 8`),
+    for every size oracle and limit, against the stub with any handler: the handler is called
+    exactly once with exactly the supplied state and its answer is returned — or the sender
+    gave up before any call, and then some message of at most 8 consecutive objects exceeds
+    the limit. -/
+theorem C09_patched (size : Chunk α β → Nat) (limit : Nat) (hlim : 0 < limit)
+    (f : List α → List β → Except ε (List υ)) (pods : List α) (ctrs : List β) :
+    let E : Env α β υ ε (RState α β) :=
+      { size := size, limit := limit, policy := policyFixed 8, clamp := true, peer := stubRPC (some f) }
+    let r := synchronize E (fuelBound pods ctrs) RState.init pods ctrs
+    (r.out = .failed .tooLarge ∧ r.world.calls = [] ∧
+        ∃ c : Chunk α β, c.pods <:+: pods ∧ c.ctrs <:+: ctrs ∧ c.count ≤ 8 ∧ limit < size c) ∨
+    (r.world.calls = [(pods, ctrs)] ∧ r.world.acc = none ∧
+      r.out = match f pods ctrs with
+        | .ok u => .done u
+        | .error e => .failed (.peer e)) := by
+  intro E r
+  have hπ : Shrinks 8 E.policy := C09_policy 8 (by decide)
+  rcases C09_delivery E 8 rfl hπ f rfl (fuelBound pods ctrs) pods ctrs (Nat.le_refl _) with ⟨h1, h2⟩ | h
+  · exact .inl ⟨h1, h2, C09_complete E 8 rfl hπ hlim _ _ pods ctrs h1⟩
+  · exact .inr h
+
+/-! ### Trace acceptance (what ties the sender model to the real executions) -/
+
+/-- **C09_trace_sound.** `accepts tr → Property tr`: a list of attempts the acceptor takes
+    for a successful synchronisation of the supplied state got a valid plan through —
+    whatever counts the real sender chose after each refusal. -/
+theorem C09_trace_sound [DecidableEq α] [DecidableEq β] (fitsOk : Chunk α β → Bool)
+    (rejOk : Chunk α β → Nat → Bool) (m : Nat) (pods : List α) (ctrs : List β)
+    (evs : List (Ev α β υ))
+    (h : acceptsTrace fitsOk rejOk m .done (SState.init pods ctrs) evs = true) :
+    ValidPlan (fun c => fitsOk c = true) pods ctrs (plan evs) :=
+  acceptsTrace_sound fitsOk rejOk m evs _ (good_init pods ctrs) h
+
+/-- **C09_trace_complete.** The acceptor admits every behaviour of the model: each finished
+    run of the repaired loop, for every policy with `Shrinks m`, is accepted (so a rejected
+    real execution is one the model cannot produce under any such policy). -/
+theorem C09_trace_complete [DecidableEq α] [DecidableEq β] (E : Env α β υ ε σ) (m : Nat)
+    (hc : E.clamp = true) (hπ : Shrinks m E.policy) (hlim : 0 < E.limit) (fuel : Nat) (w : σ)
+    (pods : List α) (ctrs : List β) (hf : fuelBound pods ctrs ≤ fuel) :
+    acceptsTrace (fun c => decide (E.size c ≤ E.limit))
+      (fun c len => decide (E.limit < len) && decide (len = E.size c)) m
+      (endOf (synchronize E fuel w pods ctrs).out) (SState.init pods ctrs)
+      (synchronize E fuel w pods ctrs).evs = true := by
+  have h1 := (C09_no_fault E m hc hπ fuel w pods ctrs).1
+  have h2 := C09_terminates E m hc hπ fuel w pods ctrs hf
+  have hfin : finished (synchronize E fuel w pods ctrs).out := by
+    cases ho : (synchronize E fuel w pods ctrs).out with
+    | done u => trivial
+    | failed e => trivial
+    | fault => exact absurd ho h1
+    | outOfFuel => exact absurd ho h2
+  exact (run_accepted E m hc hπ hlim fuel w _ (good_init pods ctrs) hfin).2
+
+/-! ### Activation -/
+
+/-- **C09_clean_fail.** With enough fuel the repaired `synchronize` ends in exactly one of
+    two ways — it returns updates or it returns an error (it neither panics nor runs on) —
+    and when it returns an error the registering plugin is not added to the active list,
+    which is otherwise untouched. -/
+theorem C09_clean_fail {π : Type} (E : Env α β υ ε σ) (m : Nat) (hc : E.clamp = true)
+    (hπ : Shrinks m E.policy) (fuel : Nat) (w : σ) (pods : List α) (ctrs : List β)
+    (hf : fuelBound pods ctrs ≤ fuel) (plugins : List π) (p : π) :
+    let o := (synchronize E fuel w pods ctrs).out
+    ((∃ u, o = .done u) ∨ (∃ e, o = .failed e)) ∧
+      (∀ e, o = .failed e → activateExternal plugins p o = plugins) ∧
+      (∀ u, o = .done u → activateExternal plugins p o = plugins ++ [p]) := by
+  intro o
+  have h1 := (C09_no_fault E m hc hπ fuel w pods ctrs).1
+  have h2 := C09_terminates E m hc hπ fuel w pods ctrs hf
+  refine ⟨?_, ?_, ?_⟩
+  · cases ho : (synchronize E fuel w pods ctrs).out with
+    | done u => exact .inl ⟨u, ho⟩
+    | failed e => exact .inr ⟨e, ho⟩
+    | fault => exact absurd ho h1
+    | outOfFuel => exact absurd ho h2
+  · intro e he; simp only [he, activateExternal]
+  · intro u hu; simp only [hu, activateExternal]
+
+/-- Pre-installed plugins (`startPlugins.syncPlugins`): exactly the plugins whose
+    synchronisation succeeded are kept, in order, and the updates are theirs. -/
+theorem C09_clean_fail_preinstalled {π : Type} (rs : List (π × Outcome υ ε)) (p : π) :
+    p ∈ (activatePreinstalled rs).1 → ∃ u, (p, Outcome.done u) ∈ rs := by
+  induction rs with
+  | nil => intro h; simp [activatePreinstalled] at h
+  | cons x rest ih =>
+    obtain ⟨q, o⟩ := x
+    intro h
+    cases o with
+    | done u =>
+      simp only [activatePreinstalled, List.mem_cons] at h
+      rcases h with rfl | h
+      · exact ⟨u, by simp⟩
+      · obtain ⟨u', hu'⟩ := ih h; exact ⟨u', by simp [hu']⟩
+    | failed e => obtain ⟨u', hu'⟩ := ih (by simpa [activatePreinstalled] using h); exact ⟨u', by simp [hu']⟩
+    | fault => obtain ⟨u', hu'⟩ := ih (by simpa [activatePreinstalled] using h); exact ⟨u', by simp [hu']⟩
+    | outOfFuel => obtain ⟨u', hu'⟩ := ih (by simpa [activatePreinstalled] using h); exact ⟨u', by simp [hu']⟩
+
+/-! ### The code as it stands: two witnesses
+
+Objects are their own encoded sizes (abstract units: think KB), the oracle is plainly
+additive, the limit is 4000, the plugin end is the stub model with a handler that
+returns no updates. `fixed = false` is the loop and `recalcObjsPerSyncMsg` of the pinned
+commit; `fixed = true` is the patched code. -/
+
+def witEnv (fixed : Bool) : Env Nat Nat Unit Unit (RState Nat Nat) where
+  size := plainSize id id
+  limit := 4000
+  policy := if fixed then policyFixed 8 else policyUnfixed 8
+  clamp := fixed
+  peer := stubRPC (some fun _ _ => .ok [])
+
+/-- 3 small pods and 12 containers of 1001 units (≈ 1 MB each) -/
+def w1pods : List Nat := [1, 1, 1]
+def w1ctrs : List Nat := List.replicate 12 1001
+
+/-- 2 small pods and 40 containers of 300 units (≈ 300 KB each) -/
+def w2pods : List Nat := [1, 1]
+def w2ctrs : List Nat := List.replicate 40 300
+
+/-- **unfixed_panics.** The loop as it stands: the whole state is refused, the shares round
+    to 0 pods / 3 containers, fewer than 8, so the counts become 4/4 — and `podsToSend[:4]`
+    is evaluated on 3 pods. Go panics (`slice bounds out of range [:4] with capacity 3`). -/
+theorem unfixed_panics :
+    (synchronize (witEnv false) 100 RState.init w1pods w1ctrs).out = .fault := by decide
+
+/-- The patched code on the same state ends cleanly: 3 pods + 4 containers is still too
+    large, 7 ≤ 8 objects, so it gives up with an error. -/
+theorem fixed_no_panic :
+    (synchronize (witEnv true) 100 RState.init w1pods w1ctrs).out = .failed .tooLarge := by decide
+
+/-- the state the unrepaired loop reaches on the second witness after 5 iterations: both
+    pods still to send, zero per message, and the stub holding the 40 containers -/
+def w2stuck : RState Nat Nat × SState Nat Nat :=
+  (⟨some ([], w2ctrs), []⟩, ⟨w2pods, [], 0, 0⟩)
+
+/-- **unfixed_livelocks.** The loop as it stands: the pods' share rounds down to zero, the
+    containers go out in 13+13+13+1, and from then on every iteration sends
+    `0 pods / 0 containers, more = true` and returns to the very same state: no amount of
+    fuel ends it (in Go: until the request deadline expires), although 2 pods + 40 containers
+    of this size are plainly transmissible. -/
+theorem unfixed_livelocks :
+    stateAfter (witEnv false) 5 RState.init (SState.init w2pods w2ctrs) = some w2stuck ∧
+    step (witEnv false) w2stuck.1 w2stuck.2 =
+      (w2stuck.1, [.sent ⟨[], [], true⟩ ⟨[], true⟩], .next w2stuck.2) ∧
+    ∀ n, (synchronize (witEnv false) (5 + n) RState.init w2pods w2ctrs).out = .outOfFuel ∧
+      plan (synchronize (witEnv false) (5 + n) RState.init w2pods w2ctrs).evs =
+        [⟨[], List.replicate 13 300, true⟩, ⟨[], List.replicate 13 300, true⟩,
+         ⟨[], List.replicate 13 300, true⟩, ⟨[], [300], true⟩] ++
+        List.replicate n ⟨[], [], true⟩ := by
+  have h1 : stateAfter (witEnv false) 5 RState.init (SState.init w2pods w2ctrs) = some w2stuck := by
+    decide
+  have h2 : step (witEnv false) w2stuck.1 w2stuck.2 =
+      (w2stuck.1, [.sent ⟨[], [], true⟩ ⟨[], true⟩], .next w2stuck.2) := by decide
+  refine ⟨h1, h2, ?_⟩
+  intro n
+  obtain ⟨e1, e2, _⟩ := run_add (witEnv false) 5 n RState.init (SState.init w2pods w2ctrs) _ _ h1
+  have hs : run (witEnv false) n ⟨some ([], w2ctrs), []⟩ ⟨w2pods, [], 0, 0⟩ = _ :=
+    run_stuck (witEnv false) w2stuck.1 w2stuck.2 _ h2 n
+  unfold synchronize
+  rw [e1, e2, hs]
+  refine ⟨rfl, ?_⟩
+  have hp : plan (run (witEnv false) 5 RState.init (SState.init w2pods w2ctrs)).evs =
+      [⟨[], List.replicate 13 300, true⟩, ⟨[], List.replicate 13 300, true⟩,
+       ⟨[], List.replicate 13 300, true⟩, ⟨[], [300], true⟩] := by decide
+  have plan_append : ∀ (a b : List (Ev Nat Nat Unit)), plan (a ++ b) = plan a ++ plan b := by
+    intro a b
+    induction a with
+    | nil => rfl
+    | cons x xs ih => cases x <;> simp [plan, ih]
+  have plan_rep : ∀ k, plan (List.replicate k (Ev.sent (υ := Unit) (⟨[], [], true⟩ : Chunk Nat Nat) ⟨[], true⟩)) =
+      List.replicate k ⟨[], [], true⟩ := by
+    intro k
+    induction k with
+    | zero => rfl
+    | succ k ih => simp [List.replicate_succ, plan, ih]
+  rw [plan_append, hp, plan_rep]
+
+/-- The patched code on the same state: every pod and container is delivered in five
+    messages, none of them empty. -/
+theorem fixed_no_livelock :
+    (synchronize (witEnv true) 100 RState.init w2pods w2ctrs).out = .done [] ∧
+    (synchronize (witEnv true) 100 RState.init w2pods w2ctrs).world.calls = [(w2pods, w2ctrs)] := by
+  decide
+
 end Nri.Props.C09
